@@ -117,7 +117,12 @@ func Call(d time.Duration, f func()) (returned bool, panicked interface{}) {
 	go func() {
 		defer func() {
 			if r := recover(); r != nil {
-				done <- Panicked{Value: r, Harness: panicFromHarness()}
+				if p, ok := r.(Panicked); ok {
+					done <- p // already classified by whoever raised it
+					return
+				}
+				_, fatal := r.(FatalExit) // raised by the harness's exit hook on behalf of the code under test
+				done <- Panicked{Value: r, Harness: !fatal && panicFromHarness()}
 				return
 			}
 			done <- nil
